@@ -32,6 +32,20 @@ func (v *yieldVisitor) Leave(n parse.Node) {
 	}
 }
 
+// sharedVals are values that every call of the current phase finds in its
+// (own) context map: read-only application data such as a settings map.
+var sharedVals map[string]stick.Value
+
+func callCtx(c sb.Call) map[string]stick.Value {
+	ctx := buildCtx(c.Ctx)
+	if ctx != nil {
+		for k, v := range sharedVals {
+			ctx[k] = v
+		}
+	}
+	return ctx
+}
+
 func runCall(env *stick.Env, c sb.Call, fsDir ...string) sb.SubResp {
 	var out bytes.Buffer
 	var err error
@@ -43,9 +57,9 @@ func runCall(env *stick.Env, c sb.Call, fsDir ...string) sb.SubResp {
 			out.WriteString(clip(tree.Root().String(), 2000))
 		}
 	case "safe":
-		err = env.ExecuteSafe(c.Entry, &out, buildCtx(c.Ctx))
+		err = env.ExecuteSafe(c.Entry, &out, callCtx(c))
 	default:
-		err = env.Execute(c.Entry, &out, buildCtx(c.Ctx))
+		err = env.Execute(c.Entry, &out, callCtx(c))
 	}
 	sr := sb.SubResp{Out: out.String()}
 	if err != nil {
@@ -80,6 +94,10 @@ func opConc(req *sb.Req) *sb.Resp {
 		b.env.Visitors = append(b.env.Visitors, &yieldVisitor{every: req.Yield + 1})
 	}
 	resp.Subs = make([]sb.SubResp, len(req.Calls))
+	// one instance of the shared values for all calls on the shared
+	// environment; every run-alone call gets a fresh instance
+	sharedVals = buildCtx(req.Ctx)
+	defer func() { sharedVals = nil }()
 	if req.Extra["mode"] == "serial" {
 		// the serial schedule: the same calls one after the other on the one
 		// shared environment (state kept by the environment or the library
@@ -92,6 +110,7 @@ func opConc(req *sb.Req) *sb.Resp {
 			if err != nil {
 				return &sb.Resp{Status: "infra", Err: err.Error()}
 			}
+			sharedVals = buildCtx(req.Ctx)
 			resp.Subs2 = append(resp.Subs2, runCall(b2.env, c, b2.fsDir))
 			b2.cleanup()
 		}
@@ -114,6 +133,7 @@ func opConc(req *sb.Req) *sb.Resp {
 		if err != nil {
 			return &sb.Resp{Status: "infra", Err: err.Error()}
 		}
+		sharedVals = buildCtx(req.Ctx)
 		resp.Subs2 = append(resp.Subs2, runCall(b2.env, c, b2.fsDir))
 		b2.cleanup()
 	}
